@@ -660,11 +660,28 @@ def mkArguments (σ : St) (params : List String) (args : List V) (env : Nat) (ca
                            kind := .args map env, dontEnum := ["length", "callee"] }
   (.ref a, σ')
 
+/-- ToUint32 (§9.6) on the values this layer has -/
+def toUint32 (v : V) : Nat :=
+  match toNum v with
+  | some n => (n % 4294967296).toNat
+  | none => 0
+
+/-- what the harness's host function reports of its This value -/
+def hostThisTok (σ : St) (v : V) : String :=
+  match v with
+  | .undef => "undefined" | .null => "null"
+  | .str s => "string:" ++ s
+  | .num n => "number:" ++ toString n
+  | .nan => "number:NaN"
+  | .bool b => "boolean:" ++ (if b then "true" else "false")
+  | .ref _ => if isCallable σ v then "function" else "object"
+
 def evalListToArgs (σ : St) (arr : V) : List V :=
   match arr with
   | .ref _ =>
     match getProp σ arr "length" with
-    | .ok (.num n) _ => (List.range n.toNat).map fun i =>
+    -- §15.3.4.3 step 4–5: len = ToUint32(argArray.[[Get]]("length"))
+    | .ok lenV _ => (List.range (toUint32 lenV)).map fun i =>
         match getProp σ arr (toString i) with
         | .ok v _ => v
         | _ => .undef
@@ -950,6 +967,9 @@ def evalE : Nat → FE → Ctx → St → Res V
       let (_, σ0) := σ.alloc { props := [], proto := some objProto, kind := .plain }
       let (fv, σ1) := mkFunc σ0 f c.env
       .ok fv σ1
+    | .hostFn =>
+      let (a, σ1) := σ.alloc { props := [("length", .num 0)], proto := some fnProto, kind := .builtin "hostThis", dontEnum := ["length"] }
+      .ok (.ref a) σ1
     | .fnCtor f =>
       -- §15.3.2.1 step 11: the new function's [[Scope]] is the GLOBAL environment, whatever the caller's is
       let (fv, σ1) := mkFunc σ f 0
@@ -1161,6 +1181,7 @@ def callFn : Nat → St → V → V → List V → Res V
       | none => throwErr σ "TypeError"
       | some o =>
         match o.kind with
+        | .builtin "hostThis" => .ok (.str (hostThisTok σ thisArg)) σ   -- a built-in gets the this value as it is (§10.4.3 is for function code)
         | .builtin "proto" => .ok .undef σ      -- §15.3.4: Function.prototype accepts any arguments and returns undefined
         | .builtin "call" =>
           if isCallable σ thisArg then callFn n σ thisArg (args.head?.getD .undef) (args.drop 1)
